@@ -364,9 +364,14 @@ def _exponent_update(fn):
             return out
         if isinstance(st, ast.AugAssign) and isinstance(st.target, ast.Subscript) and type(st.op) in OPSYM:
             return {"iter": norm(lp.iter), "target": norm(st.target), "scale_op": OPSYM[type(st.op)], "scale_arg": norm(st.value)}
-    # comprehension form: D = {k: v op X for k, v in S.items()}
-    for a in [n for n in fn.body if isinstance(n, ast.Assign) and isinstance(n.value, ast.DictComp) and len(n.targets) == 1 and isinstance(n.targets[0], ast.Name)]:
-        dc = a.value
+    # comprehension form: D = {k: v op X for k, v in S.items()}  (assigned, or handed straight to the constructor / returned)
+    comps = [(n.targets[0].id, n.value) for n in fn.body if isinstance(n, ast.Assign) and isinstance(n.value, ast.DictComp) and len(n.targets) == 1 and isinstance(n.targets[0], ast.Name)]
+    for r_ in [n for n in fn.body if isinstance(n, ast.Return) and n.value is not None]:
+        v_ = r_.value
+        if isinstance(v_, ast.Call) and len(v_.args) == 1 and isinstance(v_.args[0], ast.DictComp):
+            comps.append(("baseunits", v_.args[0]))
+    for name_, dc in comps:
+        a = ast.Assign(targets=[ast.Name(id=name_, ctx=ast.Store())], value=dc)
         if len(dc.generators) == 1 and not dc.generators[0].ifs and isinstance(dc.generators[0].target, ast.Tuple) and len(dc.generators[0].target.elts) == 2:
             k, v = (norm(e) for e in dc.generators[0].target.elts)
             if norm(dc.key) == k and isinstance(dc.value, ast.BinOp) and norm(dc.value.left) == v and type(dc.value.op) in OPSYM:
